@@ -16,12 +16,15 @@ Theorem c17_theta_ops_no_stuck :
   forall reorder, reorder_ok reorder -> forall c ops, cfg_ok c -> exists s, reach reorder c ops s.
 Proof. exact no_stuck. Qed.
 
-(* the builder accepts every documented configuration (lg_k 5..26, p in (0, 1]) *)
+(* the builder accepts every documented configuration: lg_k 5..26, p in (0, 1], a seed whose 16-bit seed
+   hash is not zero (seed() panics otherwise, documented: the repaired code, where the unusable seed used to
+   surface as a panic inside compact() - known_findings.d/theta-zero-seed-hash-panic.json) *)
 Theorem c17_theta_build_ok :
   forall c, cfg_ok c ->
   PrimFloat.ltb 0%float (float_of_bits (c_pbits c)) = true ->
   PrimFloat.leb (float_of_bits (c_pbits c)) 1%float = true ->
   PrimFloat.leb 0%float (float_of_bits (c_pbits c)) = true ->
+  c_seed_hash c <> 0 ->
   sk_build c = Ok (sk_new c).
 Proof. exact build_ok. Qed.
 
